@@ -89,7 +89,7 @@ CLAIMED = {
         "technique": TECH_KANI,
         "text": "Contract on PrimaryHeader::new with the process-wide SERIAL_NUM preset to ANY u32: serial != 0; serial = counter (or 1 when the "
                 "counter is 0); counter advanced by one ticket (two exactly when the first is 0); two consecutive calls from any counter value "
-                "return different serials (wrap-around included). Complete, sequential.",
+                "return different serials (wrap-around included). Complete, sequential. Also: under interference by up to two complete foreign calls before each atomic step (rely/guarantee model of other threads), the serial returned is never one handed out to a concurrent call; and message builders -- including the reply builders -- carry the serial freshly drawn by their own PrimaryHeader::new (a reply never inherits the serial of the call it answers).",
         "note": COMMON_TRUST + "UNCHECKED ASSUMPTION: AtomicU32::fetch_add hands out each ticket at most once under concurrency (Kani has no threads); the "
                 "schedule quantifier is discharged by that assumption plus the per-call contract.",
         "design_ref": "DESIGN.md §4 C15, §9",
